@@ -38,6 +38,7 @@ struct Hist {
   dimension_type maxdim;
   bool big;
   bool observe_always = false;
+  long bias = -1;
   int last_slot = -1, last_arg = -1;
   std::set<std::string> status_seen;
   Hist(uint64_t seed) : r(seed) {}
@@ -234,6 +235,51 @@ struct Hist {
     status_line(s); status_line(d);
   }
 
+  // A "neighbour" of slot s in another slot: the same constraints with one bound moved, one
+  // constraint dropped, one added or one negated — adjacent / overlapping / nested pairs, where
+  // unions are sometimes convex (the interesting cases for the *_if_exact predicates).
+  int neighbour(int s) {
+    int d = r.below(4); if (d == s) d = (s + 1) % 4;
+    dimension_type n = slot[s].p->space_dimension();
+    Topology t = nnc ? NOT_NECESSARILY_CLOSED : NECESSARILY_CLOSED;
+    std::unique_ptr<Polyhedron> cp(clone(*slot[s].p));
+    std::vector<Constraint> rows;
+    const Constraint_System& cs = cp->minimized_constraints();
+    for (Constraint_System::const_iterator i = cs.begin(); i != cs.end(); ++i) rows.push_back(*i);
+    Constraint_System all; if (n > 0) all.insert(0 * Variable(n - 1) >= -1);
+    unsigned how = r.below(4);
+    size_t pick = rows.empty() ? 0 : r.below((unsigned)rows.size());
+    bool extra = r.chance(1, 2);       // a second, independent modification
+    for (size_t i = 0; i < rows.size(); ++i) {
+      const Constraint& c = rows[i];
+      if (i != pick) { all.insert(c); continue; }
+      Linear_Expression e(c.expression());
+      if (how == 0) { e += Coefficient(r.range(-3, 3)); if (c.is_equality()) all.insert(e == 0); else if (c.is_strict_inequality()) all.insert(e > 0); else all.insert(e >= 0); }
+      else if (how == 1) { /* dropped */ }
+      else if (how == 2) { // the complementary half-space (closed or strict), keeping the rest
+        if (c.is_equality()) all.insert(e >= 0);
+        else if (nnc && !c.is_strict_inequality()) all.insert(-e > 0);
+        else all.insert(-e >= 0); }
+      else { all.insert(c); }
+    }
+    if (how == 3 || rows.empty() || extra) {
+      // prefer a bound on a variable the set does not constrain (cuts a line into a ray)
+      std::vector<dimension_type> freev;
+      for (dimension_type v = 0; v < n; ++v) if (!cp->constrains(Variable(v))) freev.push_back(v);
+      if (!freev.empty() && r.chance(2, 3)) {
+        Variable u(freev[r.below((unsigned)freev.size())]);
+        Coefficient k = r.range(-2, 2);
+        if (r.chance(1, 2)) all.insert(u + k >= 0); else all.insert(-u + k >= 0);
+      }
+      else all.insert(rnd_con(r, n, nnc, false));
+    }
+    OS o; o << "new " << d << " " << (nnc ? "N" : "C") << " " << n << " cons"; put_cs(o, all, n); J.line(o.str());
+    slot[d].p.reset(nnc ? (Polyhedron*)new NNC_Polyhedron(all) : (Polyhedron*)new C_Polyhedron(all));
+    if (slot[d].p->space_dimension() < n) slot[d].p->add_space_dimensions_and_embed(n - slot[d].p->space_dimension());
+    (void) t;
+    return d;
+  }
+
   // one mutator; returns false if nothing was done
   void mutate(bool c02) {
     int s = pick_live();
@@ -242,6 +288,7 @@ struct Hist {
     dimension_type n = P.space_dimension();
     OS o;
     unsigned k = r.below(c02 ? 34 : 22);
+    if (c02 && bias >= 0 && r.chance(2, 5)) k = (unsigned)bias;   // focused batch (e.g. the *_if_exact predicates)
     if (r.chance(1, 7)) { twin(s); return; }
     try {
       switch (k) {
@@ -372,6 +419,7 @@ struct Hist {
         OS q; q << "res " << s << " diff " << t << " 1"; put_cs(q, P.constraints(), n); J.line(q.str());
         break; }
       case 31: case 32: { int t = pick_compatible(s);
+        if (r.chance(3, 5)) t = neighbour(s);
         hint(s); hint(t);
         o << "pre " << s << " hull_if_exact " << t; J.line(o.str());
         bool alt = r.chance(1, 2);
@@ -408,6 +456,7 @@ int main(int argc, char** argv) {
       H.maxdim = (dimension_type)maxdim;
       H.big = H.r.chance(1, 20);
       H.observe_always = pplv::arg_long(argc, argv, "--observe-always", 0) != 0;
+      H.bias = pplv::arg_long(argc, argv, "--bias", -1);
       dimension_type n = H.r.below((unsigned)std::min(maxdim, 3L) + 1);
       { OS o; o << "hist " << h << " " << seed; J.line(o.str()); }
       H.create(0, n); H.create(1, n);
